@@ -136,11 +136,13 @@ def loop_labels(scratch, tdir_tag, h):
         rx, n = item.rsplit("=", 1)
         hits = [lab for lab, fn in loops if re.search(rx, fn)]
         if not hits:
+            # the loop may legitimately be gone in the code under test (then there is nothing to bound);
+            # the harness's global #[kani::unwind] still applies to every other loop
             notes.append(f"no loop matches {rx}")
         pairs += [f"{lab}:{int(n)}" for lab in hits]
-    if notes:
-        return None, "; ".join(notes)
-    return ",".join(pairs), f"{len(pairs)} loops bounded individually"
+    if not pairs:
+        return "", "; ".join(notes) or "no per-loop bound resolved"
+    return ",".join(pairs), f"{len(pairs)} loops bounded individually" + ("; " + "; ".join(notes) if notes else "")
 
 
 def short(name):
@@ -341,7 +343,7 @@ def main():
                     if us is None:
                         return (h, None, f"[runner] {h.name}: {note}", 0, 2, "", f"{h.name}: {note}")
                     tmo = min(h.timeout or DEFAULT_TIMEOUT[tier], int(os.environ.get("VERIF_HARNESS_TIMEOUT", "100000")))
-                    data, text, dt, rc, cmd = run_group(scratch, crate, [h], (h.cbmc + " " if h.cbmc else "") + "--unwindset " + us, 1, tmo,
+                    data, text, dt, rc, cmd = run_group(scratch, crate, [h], ((h.cbmc + " " if h.cbmc else "") + ("--unwindset " + us if us else "")).strip(), 1, tmo,
                                                         f"{crate}-{h.name}", tdir_tag=crate + "-s")
                     return (h, data, text, dt, rc, cmd, None)
                 with ThreadPoolExecutor(max_workers=per_group_jobs) as ex:
